@@ -173,4 +173,20 @@ theorem old_table_no_columns_raises :
 
 example : ({ columns := [] } : Table).calcWidths Flags.repaired 20 = some [] := by decide
 
+/-- an empty cell (header `""`, no padding) -/
+def emptyCell : Cell := { measure := fun _ => ⟨0, 0⟩, renderLines := fun _ => [] }
+
+/-- NEW finding: an expanding table with `min_width`, a `ratio=1` and a `ratio=0` column, rendered with no
+room left for the columns (`max_width - extra_width = 0`: the width is spent on the borders):
+`ratio_distribute(0, [1, 0], [1, 1])` hands the zero-ratio column the *remaining* −1, the widths sum to 0 and
+the padding step's `ratio_distribute(…, widths)` fails its assertion. -/
+def narrowTable : Table :=
+  { columns := [{ header := emptyCell, footer := emptyCell, cells := [], ratio := some 1 },
+                { header := emptyCell, footer := emptyCell, cells := [], ratio := some 0 }],
+    expandFlag := true, minWidth := some 5, padding := (0, 0, 0, 0) }
+
+theorem old_table_zero_ratio_narrow_raises : narrowTable.calcWidths Flags.repaired 0 = none := by decide
+
+example : (narrowTable.calcWidths Flags.repaired 4).isSome = true := by decide
+
 end RichModel.C14
